@@ -120,7 +120,8 @@ CFG = {
         # wave 5: aeaPhi1z is a monotone Newton iteration (q concave in the latitude for e^2 <= 1/4) with an explicit quadratic remainder
         "aeaStep_eq", "qD_antitone", "C08_aea_newton_monotone", "C08_aea_newton_quadratic", "C08_aea_straddle",
         "C08_aeaPhi1zLoop_close", "C08_aeaPhi1zLoop_ok", "log_le_half_sub_inv", "qOf_le_two_mul", "aea_start_mem", "C08_aeaPhi1z_close",
-        "C08_aeaPhi1z_converges_partial", "C08_aea_inv_close", "C08_aea_inv_within_partial", "aea_bound_numeric"]] + [
+        "C08_aeaPhi1z_converges_partial", "C08_aea_inv_close", "C08_aea_inv_within_partial", "aea_bound_numeric",
+        "two_mul_le_log_ratio", "qOf_ge", "aeaLoop_quad", "aeaLoop_lin_quad", "qD_le_cos", "aea_band", "C08_aeaPhi1z_converges", "C08_aea_inv_within"]] + [
         # tie T1: model = definitions regenerated from the current Go source (rfl)
         T + "Ties." + n for n in ["tie_initMerc", "tie_fwdMerc", "tie_invMerc", "tie_initLcc", "tie_fwdLcc", "tie_invLcc",
                                   "tie_initAea", "tie_fwdAea", "tie_invAea", "tie_aeaPhi1zStep", "tie_initEqdc", "tie_fwdEqdc",
